@@ -5,7 +5,7 @@
     every observation of "unlocked" is preceded by an unlock whose password was
     verified, with no lock / timer expiry / restart in between. *)
 From Coq Require Import List ZArith NArith Bool.
-From C33 Require Import C38.Model C38.Spec C38.Proofs C38.ProofsMain.
+From C33 Require Import C38.Model C38.Spec C38.Witness C38.Proofs C38.ProofsMain.
 Import ListNotations.
 Open Scope Z_scope.
 
